@@ -124,6 +124,11 @@ func runC11(r *Run) {
 		m := map[string]int{"rootmap": rootmap, "lr": lr, "lc": lc, "maxc": maxc, "depth": depth, "detach": 1, "nosettype": 1}
 		return m
 	}
+	exOld := func(rootmap, lr, lc, maxc, depth int) map[string]int {
+		m := ex(rootmap, lr, lc, maxc, depth)
+		m["oldhandle"] = 1
+		return m
+	}
 	exND := func(rootmap int) map[string]int {
 		m := ex(rootmap, 2, 2, 3, 2)
 		m["nodedup"] = 1
@@ -140,6 +145,10 @@ func runC11(r *Run) {
 			{Name: "detach-2kids-map", Kind: "nested", T: 256, Keys: 2, Classes: []string{"t", "A", "M"}, Oracles: or, Extra: ex(1, 2, 1, 3, 2)},
 			{Name: "detach-depth3", Kind: "nested", T: 256, Keys: 1, Classes: []string{"h", "A", "M"}, Oracles: or, Extra: ex(0, 1, 2, 3, 3)},
 			{Name: "detach-compact", Kind: "nested", T: 256, Keys: 1, Classes: []string{"Mc:t,t"}, Oracles: or, Extra: ex(0, 2, 2, 3, 2)},
+			// the caller keeps using the handles it held before the detachment (of the detached container and of
+			// its own nested containers): the detached container must stay a coherent value of its own
+			{Name: "detach-oldhandle-depth3", Kind: "nested", T: 256, Keys: 1, Classes: []string{"h", "A", "M"}, Oracles: or, Extra: exOld(0, 1, 2, 3, 3)},
+			{Name: "detach-oldhandle-map-depth3", Kind: "nested", T: 256, Keys: 1, Classes: []string{"h", "A", "M"}, Oracles: or, Extra: exOld(1, 1, 2, 3, 3)},
 			{Name: "detach-nodedup-arr", Kind: "nested", T: 256, Keys: 2, Classes: []string{"t", "A"}, Oracles: []string{"sem", "struct", "inline", "reach", "reopen"}, Extra: exND(0), Depth: 5},
 			{Name: "detach-nodedup-map", Kind: "nested", T: 256, Keys: 2, Classes: []string{"t", "M"}, Oracles: []string{"sem", "struct", "inline", "reach", "reopen"}, Extra: exND(1), Depth: 5},
 		}
@@ -153,6 +162,9 @@ func runC11(r *Run) {
 			{Name: "detach-depth3", Kind: "nested", T: 256, Keys: 1, Classes: []string{"h", "A", "M"}, Oracles: or, Extra: ex(0, 1, 2, 3, 3)},
 			{Name: "detach-arr-T512", Kind: "nested", T: 512, Keys: 2, Classes: []string{"t", "h", "A"}, Oracles: or, Extra: ex(0, 2, 2, 2, 2)},
 			{Name: "detach-compact", Kind: "nested", T: 256, Keys: 1, Classes: []string{"Mc:t,t", "t"}, Oracles: or, Extra: ex(0, 3, 2, 4, 2)},
+			{Name: "detach-oldhandle-depth3", Kind: "nested", T: 256, Keys: 1, Classes: []string{"h", "A", "M"}, Oracles: or, Extra: exOld(0, 1, 2, 3, 3)},
+			{Name: "detach-oldhandle-map-depth3", Kind: "nested", T: 256, Keys: 1, Classes: []string{"h", "A", "M"}, Oracles: or, Extra: exOld(1, 1, 2, 3, 3)},
+			{Name: "detach-oldhandle-2kids", Kind: "nested", T: 256, Keys: 2, Classes: []string{"t", "h", "A", "M"}, Oracles: or, Extra: exOld(0, 2, 2, 3, 2)},
 			{Name: "detach-nodedup-arr", Kind: "nested", T: 256, Keys: 2, Classes: []string{"t", "A"}, Oracles: []string{"sem", "struct", "inline", "reach", "reopen"}, Extra: exND(0), Depth: 6},
 			{Name: "detach-nodedup-map", Kind: "nested", T: 256, Keys: 2, Classes: []string{"t", "M"}, Oracles: []string{"sem", "struct", "inline", "reach", "reopen"}, Extra: exND(1), Depth: 6},
 		}
